@@ -868,7 +868,7 @@ class EventSource(object):
 
         eventsParser = self.parseEvents()
         while True:  # parse event(s) so far if any
-            result = next(eventParser)
+            result = next(eventsParser)
             if result is not None:
                 eventsParser.close()
                 break
@@ -884,7 +884,7 @@ class EventSource(object):
         """
         if raw:
             self.raw = raw
-        self.parser = self.parseEvents()  # make generator
+        self.parser = self.parseEventStream()  # make generator
 
     def parse(self):
         """
